@@ -112,6 +112,11 @@ class ChainNode(Entity):
 
         # CRAQ: track keys with uncommitted writes
         self._dirty_keys: set[str] = set()
+        # Number of in-flight (applied here, not yet committed at the tail) writes
+        # per key; a key stays dirty while any of its writes is in flight.
+        self._dirty_count: dict[str, int] = {}
+        # Newest accepted write per key: key -> (seq, value)
+        self._latest: dict[str, tuple[int, object]] = {}
 
         # Pending write futures (HEAD: seq -> SimFuture)
         self._pending_writes: dict[int, SimFuture] = {}
@@ -158,6 +163,28 @@ class ChainNode(Entity):
     def dirty_keys(self) -> set[str]:
         """Keys with uncommitted writes (CRAQ)."""
         return set(self._dirty_keys)
+
+    def _mark_dirty(self, key: str) -> None:
+        self._dirty_count[key] = self._dirty_count.get(key, 0) + 1
+        self._dirty_keys.add(key)
+
+    def _mark_clean(self, key: str) -> None:
+        remaining = self._dirty_count.get(key, 0) - 1
+        if remaining > 0:
+            # another write to this key is still in flight
+            self._dirty_count[key] = remaining
+        else:
+            self._dirty_count.pop(key, None)
+            self._dirty_keys.discard(key)
+
+    def _apply(self, key: str, value, seq: int):
+        """Value to store for ``key``: the newest accepted write wins, so a
+        reordered older write never replaces a newer one."""
+        latest = self._latest.get(key)
+        if latest is None or seq >= latest[0]:
+            self._latest[key] = (seq, value)
+            return value
+        return latest[1]
 
     def handle_event(
         self,
@@ -209,7 +236,7 @@ class ChainNode(Entity):
 
         # Mark dirty for CRAQ
         if self._craq_enabled:
-            self._dirty_keys.add(key)
+            self._mark_dirty(key)
 
         if self.next_node is not None:
             # Create ack future
@@ -232,11 +259,11 @@ class ChainNode(Entity):
             # Clean up
             self._pending_writes.pop(seq, None)
             if self._craq_enabled:
-                self._dirty_keys.discard(key)
+                self._mark_clean(key)
         else:
             # Single-node chain (HEAD is also TAIL)
             if self._craq_enabled:
-                self._dirty_keys.discard(key)
+                self._mark_clean(key)
 
         if reply_future is not None:
             reply_future.resolve({"status": "ok", "seq": seq})
@@ -254,11 +281,12 @@ class ChainNode(Entity):
 
         self._propagations_received += 1
 
-        # Apply locally
-        yield from self._store.put(key, value)
+        # Apply locally (Propagate messages for one key can overtake each other:
+        # the newest accepted write is the one that is stored)
+        yield from self._store.put(key, self._apply(key, value, seq))
 
         if self._craq_enabled:
-            self._dirty_keys.add(key)
+            self._mark_dirty(key)
 
         if self._role == ChainNodeRole.TAIL:
             # Send ack back to head
@@ -275,7 +303,7 @@ class ChainNode(Entity):
 
             # CRAQ: key is now clean, notify chain
             if self._craq_enabled:
-                self._dirty_keys.discard(key)
+                self._mark_clean(key)
                 # Notify upstream nodes that key is committed
                 events = self._build_commit_notifications(key, seq)
                 if events:
@@ -307,8 +335,9 @@ class ChainNode(Entity):
         """CRAQ: mark key as clean (committed)."""
         metadata = event.context.get("metadata", {})
         key = metadata.get("key")
-        if key and self._craq_enabled:
-            self._dirty_keys.discard(key)
+        # (the head learns about the commit from the WriteAck it is waiting for)
+        if key and self._craq_enabled and self._role != ChainNodeRole.HEAD:
+            self._mark_clean(key)
 
     def _handle_read(
         self,
@@ -319,31 +348,41 @@ class ChainNode(Entity):
         key = metadata.get("key")
         reply_future: SimFuture | None = metadata.get("reply_future")
 
-        # CRAQ: if not tail and key is dirty, forward to tail
-        if (
-            self._craq_enabled
-            and self._role != ChainNodeRole.TAIL
-            and key in self._dirty_keys
-            and self.head_node is not None
-        ):
-            # Find tail (last in chain)
-            tail = self._find_tail()
-            if tail is not None and tail is not self:
-                fwd_event = self._network.send(
-                    self,
-                    tail,
-                    "Read",
-                    payload={"key": key, "reply_future": reply_future},
-                )
-                yield 0.0, [fwd_event]
+        # Only the tail serves reads; with CRAQ any node may serve a clean key.
+        # Otherwise forward to the tail.
+        tail = self._tail_for_read(key)
+        if tail is None:
+            # Serve locally
+            self._reads_served += 1
+            value = yield from self._store.get(key)
+
+            # A write may have been applied while the store read was in flight:
+            # the value may only be served if the key is still clean now.
+            tail = self._tail_for_read(key)
+            if tail is None:
+                if reply_future is not None:
+                    reply_future.resolve({"status": "ok", "value": value})
                 return None
 
-        # Serve locally
-        self._reads_served += 1
-        value = yield from self._store.get(key)
+        fwd_event = self._network.send(
+            self,
+            tail,
+            "Read",
+            payload={"key": key, "reply_future": reply_future},
+        )
+        yield 0.0, [fwd_event]
+        return None
 
-        if reply_future is not None:
-            reply_future.resolve({"status": "ok", "value": value})
+    def _tail_for_read(self, key: str) -> ChainNode | None:
+        """The tail a read of ``key`` must be forwarded to, or None if this node may answer it."""
+        if (
+            self._role != ChainNodeRole.TAIL
+            and (not self._craq_enabled or key in self._dirty_keys)
+            and self.head_node is not None
+        ):
+            tail = self._find_tail()
+            if tail is not None and tail is not self:
+                return tail
         return None
 
     def _find_tail(self) -> ChainNode | None:
